@@ -119,13 +119,13 @@ func verifyCFB(env *Env, tier string) (units []*Unit, cases int, trivial int) {
 }
 
 type cfbShardResult struct {
-	Cases      int      `json:"cases"`
-	Trivial    int      `json:"trivial"`
-	Solver     int      `json:"solver"`
-	Discharged int      `json:"discharged"`
+	Cases      int       `json:"cases"`
+	Trivial    int       `json:"trivial"`
+	Solver     int       `json:"solver"`
+	Discharged int       `json:"discharged"`
 	Failed     []cfbFail `json:"failed"`
-	Unsup      []string `json:"unsupported"`
-	Sample     []string `json:"sample"`
+	Unsup      []string  `json:"unsupported"`
+	Sample     []string  `json:"sample"`
 }
 
 type cfbFail struct {
